@@ -10,3 +10,6 @@ open GrVerif.Props.C02
 #print axioms pass_stays_within_loop_bound
 #print axioms pipeline_stays_within_loop_bound
 #print axioms fuel_is_never_the_reason
+#print axioms every_program_stays_inside_the_stack
+#print axioms rule_code_stays_inside_the_stack
+#print axioms no_code_leaves_the_stack
